@@ -15,7 +15,7 @@ import (
 
 func init() { Registry["C19"] = runC19 }
 
-const explanationC19 = "Decides structural necessary conditions of C19 on the request-ID, trace, sampler and capture middlewares through SSA path tables: (R19.1) on every path the downstream handler/invoker receives the context derived by GenerateRequestID / WithSpan / setTrace (HTTP, gRPC unary and stream); (R19.2) request-ID selection — the inbound value is consulted only under the trust flag, truncated to id[:limit] only under limit>0 ∧ len>limit, replaced by a fresh ID iff absent or empty, and stored under RequestIDKey; the HTTP and gRPC front-ends read the header/metadata only under the trust flag; (R19.3) trace extraction and injection tables mirror each other (TraceID header/metadata ↔ TraceIDKey, caller's span ↔ parent span, fresh span from the span function, WithSpan stores each argument under its own key); (R19.4) the sampler and discard list are consulted only when no inbound trace ID exists; (R19.6) the fixed sampler's 0 and 100 rows do not consult the RNG, NewSampler picks adaptive iff maxSamplingRate>0 with (rate,size) in order; (R19.7) ResponseCapture stores the status it forwards, adds the byte count the underlying writer returned, and records the implicit 200; (R19.8) every option constructor stores its argument into its own field; (R19.9) a wrapped server stream carries a context derived from the wrapped stream's own context; (R19.10) the shutdown sweep of the stream canceler visits every in-flight stream. (R19.11) the option that turns the incoming request-ID header on also names the header (fields stored together). NOT decided: uniqueness/non-emptiness of generated IDs as values, sampling statistics, chains of calls at run time."
+const explanationC19 = "Decides structural necessary conditions of C19 on the request-ID, trace, sampler and capture middlewares through SSA path tables: (R19.1) on every path the downstream handler/invoker receives the context derived by GenerateRequestID / WithSpan / setTrace (HTTP, gRPC unary and stream); (R19.2) request-ID selection — the inbound value is consulted only under the trust flag, truncated to id[:limit] only under limit>0 ∧ len>limit, replaced by a fresh ID iff absent or empty, and stored under RequestIDKey; the HTTP and gRPC front-ends read the header/metadata only under the trust flag; (R19.3) trace extraction and injection tables mirror each other (TraceID header/metadata ↔ TraceIDKey, caller's span ↔ parent span, fresh span from the span function, WithSpan stores each argument under its own key); (R19.4) the sampler and discard list are consulted only when no inbound trace ID exists; (R19.6) the fixed sampler's 0 and 100 rows do not consult the RNG, NewSampler picks adaptive iff maxSamplingRate>0 with (rate,size) in order; (R19.7) ResponseCapture stores the status it forwards, adds the byte count the underlying writer returned, and records the implicit 200; (R19.8) every option constructor stores its argument into its own field; (R19.9) a wrapped server stream carries a context derived from the wrapped stream's own context; (R19.10) the shutdown sweep of the stream canceler visits every in-flight stream. (R19.11) the option that turns the incoming request-ID header on also names the header (fields stored together). (R19.12) every method of ResponseCapture that counts body bytes records the implicit 200 first. NOT decided: uniqueness/non-emptiness of generated IDs as values, sampling statistics, chains of calls at run time."
 
 // Current is the context of the running check (set by main).
 var Current *an.Ctx
@@ -127,6 +127,7 @@ func runC19(c *an.Ctx) string {
 	r19HTTPRequestID(c)
 	r19GRPCRequestID(c)
 	pairedStoresRule(c, "R19.11", "reqid") // turning the incoming header on names the header that is read
+	r1912BodyBookkeeping(c, "R19.12")
 	r19WithSpan(c)
 	r19HTTPTrace(c)
 	r19GRPCTrace(c)
@@ -978,4 +979,47 @@ func r19StreamContext(c *an.Ctx) {
 		}
 	}
 	c.Floor(rule, n, 3, "wrapped server streams in the gRPC middlewares")
+}
+
+// r1912BodyBookkeeping (R19.12): net/http sends an implicit 200 with the first body byte, whichever way the body is
+// written. Every method of ResponseCapture that counts body bytes (stores ContentLength) therefore also records the
+// implicit status: it tests StatusCode against 0 (itself or through a helper it calls) before it forwards the bytes.
+// A body-writing method without that step (an added ReadFrom, WriteString…) leaves StatusCode at 0 for handlers that
+// never call WriteHeader, and the log and trace middlewares report status 0 for a 200.
+func r1912BodyBookkeeping(c *an.Ctx, rule string) {
+	n := 0
+	for _, f := range c.AllFuncs("http/middleware") {
+		if f.Decl.Recv == nil || len(f.Decl.Recv.List) == 0 || !strings.Contains(types.ExprString(f.Decl.Recv.List[0].Type), "ResponseCapture") {
+			continue
+		}
+		counts, tests := false, false
+		c.InspectAll(f, func(hf *an.Func, nd ast.Node) bool {
+			info := hf.Pkg.TypesInfo
+			switch x := nd.(type) {
+			case *ast.AssignStmt:
+				for _, l := range x.Lhs {
+					if fv := an.FieldOf(info, l); fv != nil && an.CanonFieldName(fv) == "ContentLength" {
+						counts = true
+					}
+				}
+			case *ast.IncDecStmt:
+				if fv := an.FieldOf(info, x.X); fv != nil && an.CanonFieldName(fv) == "ContentLength" {
+					counts = true
+				}
+			case *ast.BinaryExpr:
+				for _, e := range []ast.Expr{x.X, x.Y} {
+					if fv := an.FieldOf(info, e); fv != nil && an.CanonFieldName(fv) == "StatusCode" {
+						tests = true
+					}
+				}
+			}
+			return true
+		})
+		if !counts {
+			continue
+		}
+		n++
+		c.Check(tests, rule, c.RefName(f)+"#implicit-status", f.Decl.Pos(), "the method that counts body bytes records the implicit 200 first", "the method counts body bytes (ContentLength) but never looks at StatusCode: a handler that writes its body through it without WriteHeader is recorded with status 0 although net/http sent 200")
+	}
+	c.Floor(rule, n, 1, "body-writing methods of ResponseCapture")
 }
